@@ -20,7 +20,9 @@ Abs(a) == IF a < 0 THEN -a ELSE a
 Max(a, b) == IF a >= b THEN a ELSE b
 Slack == 64     \* quantisation of d1..d3 and g: (128*55 + 60)/2 / 60 < 64
 
-Ok(e) == (Abs(128 * (45 * e.d1 - 9 * e.d2 + e.d3) - 60 * e.g) \div 60) <= (Max(e.s, Abs(e.g)) \div 1000) + Slack
+\* e.u: the size of the gradient at the sampled point (max-norm, in the same fixed-point unit): the stencil and the exported
+\* gradient agree to 1e-4 of it (a sixth-order stencil with h = 2^-7 is good to ~1e-9 of it on these functions)
+Ok(e) == (Abs(128 * (45 * e.d1 - 9 * e.d2 + e.d3) - 60 * e.g) \div 60) <= (Max(e.u, Abs(e.g)) \div 10000) + Slack
 Init == tid \in 1..Len(Traces) /\ l = 1 /\ viol = {}
 Sample == /\ l <= Len(Tr)
           /\ viol' = IF Ok(Ev) /\ Ev.shapeOk /\ Ev.scalarOk THEN viol
